@@ -672,7 +672,7 @@ def case_svd_kernel_mixed(case):
 # ------------------------------------------------------------------------------------------
 # sphere_through / circle_through
 # ------------------------------------------------------------------------------------------
-def _check_sphere_unit(v, pts, centre, radius, where):
+def _check_sphere_unit(v, pts, centre, radius, where, rel=1e-9):
     d = len(pts[0])
     P = np.array(pts, dtype=float)
     c_ex, r2 = L.exact_circumcentre(pts)
@@ -682,7 +682,7 @@ def _check_sphere_unit(v, pts, centre, radius, where):
     if centre.shape != (d,) or np.ndim(radius) != 0:
         v.append(_V("sphere_through/shape/dim%d/%s" % (d, where), "centre shape %r radius shape %r" % (centre.shape, np.shape(radius))))
         return
-    tol = 1e-9 * (1 + r_ex + float(np.max(np.abs(c_ex))))
+    tol = rel * (1 + r_ex + float(np.max(np.abs(c_ex))))
     dist = np.linalg.norm(P - centre, axis=-1)
     if not float(np.max(np.abs(dist - float(radius)))) <= tol:
         v.append(_V("sphere_through/contains/dim%d/%s" % (d, where),
@@ -741,6 +741,137 @@ def case_sphere_batch(case):
             if v:
                 break
     return {"v": v[:4], "t": t, "o": repr((d, shape, len(sets))), "nt": True}
+
+
+# sphere_through / circle_through: points of MIXED numeric kinds --------------------------------
+MIX_INT = [[0, 0], [2, -1], [-3, 1]]                       # integer-valued points
+MIX_FRAC = [[1.5, -2.25], [-0.75, 3.5], [2.25, 0.5]]       # dyadic, exact in float32 and as Fractions
+MIX_PACKS_INT = ["i64", "i32", "f64", "f32", "list", "tuple"]
+MIX_PACKS_FRAC = ["f64", "f32", "list", "tuple"]
+TOL_F32 = 2e-4       # some point float32: float32 accuracy is accepted (all-float32 input is computed in float32, measured <= 2e-6)
+
+
+def _mix_pack(pt, how):
+    """One point (or an array of points) in a numeric kind; integer kinds only for integer-valued points."""
+    a = np.array(pt, dtype=float)
+    if how in ("i64", "i32"):
+        assert np.array_equal(a, np.round(a))
+        return a.astype({"i64": np.int64, "i32": np.int32}[how])
+    if how == "f64":
+        return a.copy()
+    if how == "f32":
+        return a.astype(np.float32)
+    integral = bool(np.array_equal(a, np.round(a)))
+    def conv(x):
+        if isinstance(x, list):
+            return [conv(y) for y in x]
+        return int(x) if integral else float(x)          # integer-valued points as Python ints
+    lst = conv(a.tolist())
+    if how == "list":
+        return lst
+    def tup(x):
+        return tuple(tup(y) for y in x) if isinstance(x, list) else x
+    return tup(lst)
+
+
+def _kind(how):
+    return {"i64": "integer-array", "i32": "integer-array", "f32": "float32-array", "f64": "float64-array"}.get(how, how)
+
+
+@_quiet
+def case_sphere_mixed(case):
+    """circle_through(p1, p2, p3) for one ordered triple of the mixed alphabet under EVERY assignment of numeric
+    kinds to the three points; sphere_through of the integer-valued sets as integer / float32 ndarrays."""
+    from geometry_tools import utils
+    v, t = [], 0
+    if case["what"] == "circle":
+        alpha = MIX_INT + MIX_FRAC
+        pts = [alpha[i] for i in case["triple"]]
+        if not L.affinely_independent(pts):
+            return {"v": [], "t": 0, "o": "dependent", "nt": False}
+        packs = [MIX_PACKS_INT if i < len(MIX_INT) else MIX_PACKS_FRAC for i in case["triple"]]
+        for hows in itertools.product(*packs):
+            args = [_mix_pack(p_, h) for p_, h in zip(pts, hows)]
+            snaps = [np.array(a, copy=True) if isinstance(a, np.ndarray) else None for a in args]
+            where = "circle_through-mixed/first=%s/others=%s" % (_kind(hows[0]), "+".join(sorted({_kind(h) for h in hows[1:]})))
+            try:
+                c, r = utils.circle_through(*args)
+            except Exception as e:  # noqa: BLE001
+                v.append(_V("sphere_through/raises/dim2/%s" % where, "circle_through of %r packaged as %r raises %s: %s" % (pts, hows, type(e).__name__, str(e)[:160])))
+                continue
+            t += 1
+            if any(sn is not None and not np.array_equal(a, sn) for a, sn in zip(args, snaps)):
+                v.append(_V("sphere_through/input-mutated/dim2/%s" % where, "circle_through changed one of its arguments (%r as %r)" % (pts, hows)))
+            _check_sphere_unit(v, pts, c, r, where, rel=TOL_F32 if any(h == "f32" for h in hows) else 1e-9)
+            if len(v) > 5:
+                break
+        return {"v": v[:6], "t": t, "o": repr(case["triple"]), "nt": True}
+    if case["what"] == "circle-batch":
+        # arrays of points: argument number `pos` is an integer-typed (or float32) array, the others float64 arrays of
+        # non-integral points
+        shape, pos, how = tuple(case["shape"]), case["pos"], case["pack"]
+        n = int(np.prod(shape))
+        trip = []
+        for k in range(n):
+            a, b, c_ = MIX_INT[k % 3], MIX_FRAC[(k + 1) % 3], MIX_FRAC[(k + 2) % 3]
+            t3 = [b, c_]
+            t3.insert(pos, a)
+            trip.append(t3)
+        if not all(L.affinely_independent(t3) for t3 in trip):
+            return {"v": [], "t": 0, "o": "dependent", "nt": False}
+        args = []
+        for j in range(3):
+            arr = np.array([t3[j] for t3 in trip], dtype=float).reshape(shape + (2,))
+            args.append(_mix_pack(arr, how) if j == pos else arr)
+        where = "circle_through-mixed-batch/%s-argument-%d" % (_kind(how), pos + 1)
+        c, r = utils.circle_through(*args)
+        t += 1
+        c, r = np.asarray(c), np.asarray(r)
+        if c.shape != shape + (2,) or r.shape != shape:
+            v.append(_V("sphere_through/shape/dim2/%s" % where, "centre %r radius %r for points of shape %r" % (c.shape, r.shape, shape + (2,))))
+        else:
+            cf, rf = c.reshape((-1, 2)), r.reshape((-1,))
+            for k in range(n):
+                _check_sphere_unit(v, trip[k], cf[k], rf[k], where)
+                if v:
+                    break
+        return {"v": v[:4], "t": t, "o": repr((shape, pos, how)), "nt": True}
+    # sphere_through(points) with an integer-typed / float32 ndarray of integer points, single and batched
+    sets = [s_ for s_ in case["sets"] if L.affinely_independent(s_)]
+    how = case["pack"]
+    d = len(sets[0][0])
+    for s_ in sets:
+        c, r = utils.sphere_through(_mix_pack(s_, how))
+        t += 1
+        _check_sphere_unit(v, s_, c, r, "sphere_through-%s" % _kind(how), rel=TOL_F32 if how == "f32" else 1e-9)
+        if v:
+            break
+    arr = _mix_pack(sets, how)
+    c, r = utils.sphere_through(arr)
+    t += 1
+    c, r = np.asarray(c), np.asarray(r)
+    if c.shape != (len(sets), d) or r.shape != (len(sets),):
+        v.append(_V("sphere_through/shape/dim%d/sphere_through-%s-batch" % (d, _kind(how)), "centre %r radius %r for input %r" % (c.shape, r.shape, arr.shape)))
+    elif not v:
+        for k, s_ in enumerate(sets):
+            _check_sphere_unit(v, s_, c[k], r[k], "sphere_through-%s-batch" % _kind(how), rel=TOL_F32 if how == "f32" else 1e-9)
+            if v:
+                break
+    return {"v": v[:4], "t": t, "o": repr((d, how, len(sets))), "nt": True}
+
+
+def sphere_mixed_cases(seed):
+    n = len(MIX_INT) + len(MIX_FRAC)
+    for tr in itertools.permutations(range(n), 3):
+        yield {"what": "circle", "triple": list(tr)}
+    for shape in ([2], [3], [2, 2], [1, 3]):
+        for pos in range(3):
+            for how in ("i64", "i32", "f32"):
+                yield {"what": "circle-batch", "shape": shape, "pos": pos, "pack": how}
+    for c in sphere_batch_cases(seed):
+        if c["shape"] == [1]:
+            for how in ("i64", "i32", "f32"):
+                yield {"what": "sphere", "sets": c["sets"], "pack": how}
 
 
 # ------------------------------------------------------------------------------------------
@@ -1211,6 +1342,16 @@ def run(ctx):
                 domains={"d=1": "ordered pairs of 5 points", "d=2": "all ordered triples of a %d-point integer grid" % (16 if q else 25),
                          "d=3,4": "all ordered (d+1)-tuples of a 7..9-point alphabet"}, chunk=8)
     ctx.product("sphere_through-batch", "checks.c18:case_sphere_batch", sphere_batch_cases(seed), domains={"shapes": SHAPES_R2}, chunk=8)
+
+    ctx.assume("mixed numeric kinds: circle_through takes its three points as float64 / float32 / int64 / int32 ndarrays, lists or tuples in any "
+               "combination (np.stack semantics); sphere_through takes ndarrays only (a list raises AttributeError: outside the input kind)")
+    ctx.tolerances["sphere_through, some float32 input"] = "2e-4 (1 + r + |c|): float32 accuracy accepted (all-float32 input is computed in float32, measured <= 2e-6); a truncated point moves the circle by >= 0.1"
+    ctx.product("sphere_through-mixed-kinds", "checks.c18:case_sphere_mixed", list(sphere_mixed_cases(seed)),
+                domains={"points": {"integer-valued": MIX_INT, "non-integral (dyadic)": MIX_FRAC}, "triples": "all ordered triples of the 6 points",
+                         "kinds of an integer-valued point": MIX_PACKS_INT, "kinds of a non-integral point": MIX_PACKS_FRAC,
+                         "assignments": "every assignment of kinds to the three points",
+                         "batches": "shapes (2),(3),(2,2),(1,3) with the integer / float32 array in each argument position",
+                         "sphere_through": "the integer sets of the batch section (d = 1, 2, 3) as int64 / int32 / float32 ndarrays"}, chunk=4)
 
     ctx.product("arc-helpers", "checks.c18:case_arcs", arc_cases(seed, q),
                 domains={"grid": "25 structured + 4 seed-selected angles per range", "ranks": [0, 1, 2],
